@@ -218,6 +218,27 @@ def assemble (n : Nat) (rf : List Nat) (vrf : List (Dva α)) (rb : List Nat) (vr
     (el : List Nat) (vel : List (Dva α)) : List (Dva α) :=
   scatter (scatter (scatter (List.replicate n zeroDva) rf vrf) rb vrb) el vel
 
+/-- the equation the assembled column is claimed to satisfy (`Props/C02c.lean`): the full-size
+matrix that is block diagonal by partition — `−Ω² M` on the rigid-body block, the dynamic stiffness
+on the elastic block, `K` on the residual-flexibility block, zero between partitions -/
+def partStiff (i w : α) (M B K : Nat → Nat → α) (rb el rf : List Nat) (r c : Nat) : α :=
+  if rb.contains r && rb.contains c then -(w * w) * M r c
+  else if el.contains r && el.contains c then i * B r c * w + K r c - M r c * (w * w)
+  else if rf.contains r && rf.contains c then K r c
+  else 0
+
+/-- row `r` of "block of `A` on `idx` times the block values `xs`" (`xs[q]` belongs to equation
+`idx[q]`): what `A[np.ix_(idx, idx)] @ xs` is at that row -/
+def blockSum (A : Nat → Nat → α) (idx : List Nat) (xs : List α) (r : Nat) : α :=
+  ((idx.zip xs).map fun cx => A r cx.1 * cx.2).sum
+
+/-- row `c` of an assembled column (`zeroDva` outside the list: never used for `c < n`) -/
+def optRow : Option (Dva α) → Dva α
+  | some x => x
+  | none => zeroDva
+
+def rowOf (sol : List (Dva α)) (c : Nat) : Dva α := optRow sol[c]?
+
 /-- eigen data of the coupled path, as delivered by the implementation's `pc` -/
 structure EigData (α : Type) (ks : Nat) where
   s : Nat
